@@ -1,9 +1,686 @@
-import PyPhysim.Model.C03
-import PyPhysim.Model.C03Disc
+import PyPhysim.Proofs.C03Mu
+import PyPhysim.Proofs.C03Hist
+import PyPhysim.Proofs.C03Disc
+import PyPhysim.Proofs.C03Aux
 
+/-!
+# C03 — TDL channel output is the convolution with the impulse response it reports
+
+Property theorems only.  The model (`PyPhysim.Model.C03*`) mirrors
+`TdlChannel`, `TdlImpulseResponse`, `SuChannel`, `MuChannel`/`MuMimoChannel`
+and `TdlChannelProfile._calc_discretized_tap_powers_and_delays`; it is tied to
+the code by the exact correspondence of `harness/props/c03.py`, and its
+block-size / fading-schedule expressions (`PyPhysim.Generated.blockSize*`,
+`samplesPerBlock`, `skipPerBlock`) are regenerated from the current source.
+The right-hand sides (`convSpec*`, `freqSpec*`, `collidingPower`) are the
+first-principles specifications of `PyPhysim.Model.C03Spec`.
+
+Quantifiers.  `α` is any commutative semiring (ℤ[i], ℚ(i), ℂ …); `proc` any
+fading process; `fftK` any FFT kernel; the channel state `c` is arbitrary, so
+every statement holds after **any history** of earlier operations (made
+explicit in `history_*`).  Inputs are tables `tab n xf`: every rectangular
+numpy array is one (`rect_is_table`).
+-/
 namespace PyPhysim.C03
+open PyPhysim.Proto
 
-/-- placeholder while the harness is brought up -/
-theorem pyRangeLen_example : pyRangeLen 0 10 3 = 4 := by decide
+variable {α : Type} [CommSemiring α]
+
+/-! ## inputs -/
+
+/-- every rectangular `rows × n` list of lists is the table of its entries: the theorems
+    below, stated for tables, cover every array a caller can pass -/
+theorem rect_is_table (x : List (List α)) (n : Nat) (h : ∀ row ∈ x, row.length = n) :
+    ∃ xf : Nat → Nat → α, x = tab x.length (fun a => tab n (xf a)) := by
+  refine ⟨fun a k => ((x[a]?.getD [])[k]?).getD 0, ?_⟩
+  apply List.ext_getElem?
+  intro a
+  rw [getElem?_tab]
+  by_cases ha : a < x.length
+  · simp only [ha, if_true, List.getElem?_eq_getElem ha, Option.getD_some, Option.some.injEq]
+    apply List.ext_getElem?
+    intro k
+    rw [getElem?_tab]
+    have hl := h x[a] (List.getElem_mem ha)
+    by_cases hk : k < n
+    · have : k < x[a].length := by omega
+      simp [hk, List.getElem?_eq_getElem this]
+    · have : x[a].length ≤ k := by omega
+      simp [hk, List.getElem?_eq_none this]
+  · simp [ha, List.getElem?_eq_none (Nat.le_of_not_lt ha)]
+
+/-! ## time domain, single link (`TdlChannel.corrupt_data`) -/
+
+/-- CLAUSE "returned signal = time-varying convolution with the response reported
+    afterwards", SISO.  For every channel state, input length and input. -/
+theorem corrupt_siso_spec (proc : Proc α) (c : Tdl α) (hant : c.ant = none) (mem : Nat)
+    (hmem : c.mem = .ok mem) (n : Nat) (xf : Nat → α) :
+    ∃ c' ir, c.corrupt proc [tab n xf] = .ok (c', [convSpecSiso ir n mem xf]) ∧
+      c'.lastIR = .ok ir ∧ ir.n = n ∧ ir.delays = c.delays :=
+  ⟨c.afterTx proc n, genIR proc c c.pos n, tdl_corrupt_siso proc c hant mem hmem n xf, rfl, rfl, rfl⟩
+
+/-- same clause, MIMO in the original direction: `y[r][m] = Σ_i Σ_t h_i[r,t][m−d_i]·x[t][m−d_i]`,
+    `nr` output rows from `nt` input rows. -/
+theorem corrupt_mimo_spec (proc : Proc α) (c : Tdl α) (nr nt : Nat) (hant : c.ant = some (nr, nt))
+    (hsw : c.switched = false) (hnt : 0 < nt) (mem : Nat) (hmem : c.mem = .ok mem) (n : Nat) (xf : Nat → Nat → α) :
+    ∃ c' ir, c.corrupt proc (tab nt (fun a => tab n (xf a))) = .ok (c', convSpec ir false nr nt n mem xf) ∧
+      c'.lastIR = .ok ir ∧ ir.n = n ∧ ir.delays = c.delays := by
+  have h := tdl_corrupt_mimo proc c nr nt hant mem hmem n xf (by simp [Tdl.dims, hsw, hnt])
+  simp only [Tdl.dims, hsw, Bool.false_eq_true, if_false] at h
+  exact ⟨_, _, h, rfl, rfl, rfl⟩
+
+/-- same clause, switched direction (roles of the antennas exchanged):
+    `y[t][m] = Σ_i Σ_r h_i[r,t][m−d_i]·x[r][m−d_i]`, `nt` output rows from `nr` input rows. -/
+theorem corrupt_switched_spec (proc : Proc α) (c : Tdl α) (nr nt : Nat) (hant : c.ant = some (nr, nt))
+    (hsw : c.switched = true) (hnr : 0 < nr) (mem : Nat) (hmem : c.mem = .ok mem) (n : Nat) (xf : Nat → Nat → α) :
+    ∃ c' ir, c.corrupt proc (tab nr (fun a => tab n (xf a))) = .ok (c', convSpec ir true nt nr n mem xf) ∧
+      c'.lastIR = .ok ir ∧ ir.n = n ∧ ir.delays = c.delays := by
+  have h := tdl_corrupt_mimo proc c nr nt hant mem hmem n xf (by simp [Tdl.dims, hsw, hnr])
+  simp only [Tdl.dims, hsw, if_true] at h
+  exact ⟨_, _, h, rfl, rfl, rfl⟩
+
+/-- the switched coefficient really is the transposed tap: `orient true h t r = h r t` -/
+theorem orient_switched (h : Nat → Nat → Nat → α) (r t k : Nat) :
+    orient true h t r k = h r t k ∧ orient false h r t k = h r t k := ⟨rfl, rfl⟩
+
+/-- CLAUSE "has length input + channel memory": every output row of the specification
+    (hence, by the three theorems above, of `corrupt_data`) has `n + mem` entries, and
+    `mem` is the last (largest) delay of the profile. -/
+theorem corrupt_length (ir : IR α) (sw : Bool) (nOut nIn n mem : Nat) (xf : Nat → α) (xg : Nat → Nat → α) :
+    (convSpecSiso ir n mem xf).length = n + mem ∧
+    (convSpec ir sw nOut nIn n mem xg).length = nOut ∧
+    ∀ row ∈ convSpec ir sw nOut nIn n mem xg, row.length = n + mem := by
+  refine ⟨tab_length _ _, tab_length _ _, ?_⟩
+  intro row hrow
+  simp only [convSpec, tab, List.mem_map, List.mem_range] at hrow
+  obtain ⟨j, _, rfl⟩ := hrow
+  simp
+
+/-- `mem` is the delay of the last tap (`num_taps_with_padding − 1`) and, for the sorted
+    delays every discretised profile has, the largest one -/
+theorem mem_is_last_delay (c : Tdl α) (mem : Nat) (hmem : c.mem = .ok mem)
+    (hsorted : c.delays.Pairwise (· < ·)) : mem ∈ c.delays ∧ ∀ d ∈ c.delays, d ≤ mem :=
+  mem_last_delay c mem hmem hsorted
+
+/-- CLAUSE "is linear in the input", SISO: for one channel state (one fading realisation)
+    the output of `a·x + b·x'` is `a·y + b·y'`; state and reported response do not depend on
+    the input values. -/
+theorem corrupt_linear_siso (proc : Proc α) (c : Tdl α) (hant : c.ant = none) (mem : Nat)
+    (hmem : c.mem = .ok mem) (n : Nat) (a b : α) (xf xg : Nat → α) :
+    ∃ (c' : Tdl α) (Y Y' : Nat → α),
+      c.corrupt proc [tab n xf] = .ok (c', [tab (n + mem) Y]) ∧
+      c.corrupt proc [tab n xg] = .ok (c', [tab (n + mem) Y']) ∧
+      c.corrupt proc [tab n (fun k => a * xf k + b * xg k)]
+        = .ok (c', [tab (n + mem) (fun m => a * Y m + b * Y' m)]) := by
+  refine ⟨c.afterTx proc n, convAtSiso (genIR proc c c.pos n) n xf, convAtSiso (genIR proc c c.pos n) n xg,
+    tdl_corrupt_siso proc c hant mem hmem n xf, tdl_corrupt_siso proc c hant mem hmem n xg, ?_⟩
+  rw [tdl_corrupt_siso proc c hant mem hmem n]
+  unfold convSpecSiso
+  congr 4
+  funext m
+  exact convAtSiso_linear _ n a b xf xg m
+
+/-- CLAUSE "is linear in the input", MIMO, either direction. -/
+theorem corrupt_linear_mimo (proc : Proc α) (c : Tdl α) (nr nt : Nat) (hant : c.ant = some (nr, nt)) (mem : Nat)
+    (hmem : c.mem = .ok mem) (hIn : 0 < (c.dims nr nt).2) (n : Nat) (a b : α) (xf xg : Nat → Nat → α) :
+    ∃ (c' : Tdl α) (Y Y' : Nat → Nat → α),
+      c.corrupt proc (tab (c.dims nr nt).2 (fun i => tab n (xf i)))
+        = .ok (c', tab (c.dims nr nt).1 (fun j => tab (n + mem) (Y j))) ∧
+      c.corrupt proc (tab (c.dims nr nt).2 (fun i => tab n (xg i)))
+        = .ok (c', tab (c.dims nr nt).1 (fun j => tab (n + mem) (Y' j))) ∧
+      c.corrupt proc (tab (c.dims nr nt).2 (fun i => tab n (fun k => a * xf i k + b * xg i k)))
+        = .ok (c', tab (c.dims nr nt).1 (fun j => tab (n + mem) (fun m => a * Y j m + b * Y' j m))) := by
+  refine ⟨c.afterTx proc n, convAt (genIR proc c c.pos n) c.switched (c.dims nr nt).2 n xf,
+    convAt (genIR proc c c.pos n) c.switched (c.dims nr nt).2 n xg,
+    tdl_corrupt_mimo proc c nr nt hant mem hmem n xf hIn, tdl_corrupt_mimo proc c nr nt hant mem hmem n xg hIn, ?_⟩
+  rw [tdl_corrupt_mimo proc c nr nt hant mem hmem n _ hIn]
+  unfold convSpec
+  congr 3
+  funext j
+  congr 1
+  funext m
+  exact convAt_linear _ _ _ n a b xf xg j m
+
+/-- the reported taps are the fading samples at the absolute positions `pos … pos+n−1` of the
+    generator, times the tap amplitude; the transmission consumes `n` positions -/
+theorem corrupt_uses_samples (proc : Proc α) (c c' : Tdl α) (x y : List (List α))
+    (h : c.corrupt proc x = .ok (c', y)) :
+    c'.pos = c.pos + numSymbols x ∧
+    c'.last = some { n := numSymbols x, delays := c.delays,
+                     vals := c.taps.zipIdx.map (fun ta => fun r t k => proc c.link (c.pos + k) ta.2 r t * ta.1.2) } := by
+  rw [tdl_corrupt_state proc c c' x y h]
+  exact ⟨rfl, rfl⟩
+
+/-! ## path loss (`SuChannel`) -/
+
+/-- CLAUSE "with or without path loss": the output of `SuChannel.corrupt_data` is the
+    convolution with the response `SuChannel.get_last_impulse_response` reports afterwards
+    (both carry the same factor `√pathloss`), SISO. -/
+theorem pathloss_consistent_siso (proc : Proc α) (c : Su α) (hant : c.tdl.ant = none) (mem : Nat)
+    (hmem : c.tdl.mem = .ok mem) (n : Nat) (xf : Nat → α) :
+    ∃ c' ir, c.corrupt proc [tab n xf] = .ok (c', [convSpecSiso ir n mem xf]) ∧
+      c'.lastIR = .ok ir ∧ ir.n = n ∧ ir.delays = c.tdl.delays ∧ c'.pl = c.pl := by
+  refine ⟨_, _, su_corrupt_siso proc c hant mem hmem n xf, su_lastIR c _ _ rfl, ?_, ?_, rfl⟩
+  · rw [Su.report_n]; rfl
+  · rw [Su.report_delays]; rfl
+
+/-- same, MIMO in either direction (`c.tdl.dims` gives the (output, input) antenna counts) -/
+theorem pathloss_consistent_mimo (proc : Proc α) (c : Su α) (nr nt : Nat) (hant : c.tdl.ant = some (nr, nt))
+    (mem : Nat) (hmem : c.tdl.mem = .ok mem) (hIn : 0 < (c.tdl.dims nr nt).2) (n : Nat) (xf : Nat → Nat → α) :
+    ∃ c' ir, c.corrupt proc (tab (c.tdl.dims nr nt).2 (fun a => tab n (xf a)))
+        = .ok (c', convSpec ir c.tdl.switched (c.tdl.dims nr nt).1 (c.tdl.dims nr nt).2 n mem xf) ∧
+      c'.lastIR = .ok ir ∧ ir.n = n ∧ ir.delays = c.tdl.delays ∧ c'.pl = c.pl := by
+  refine ⟨_, _, su_corrupt_mimo proc c nr nt hant mem hmem n xf hIn, su_lastIR c _ _ rfl, ?_, ?_, rfl⟩
+  · rw [Su.report_n]; rfl
+  · rw [Su.report_delays]; rfl
+
+/-- what "the same factor" means: the reported taps are the TDL taps times `s = √pathloss`,
+    and the output is the TDL output times `s` -/
+theorem pathloss_scales (s : α) (ir : IR α) (n : Nat) (xf : Nat → α) (m : Nat) :
+    convAtSiso (ir.scale s) n xf m = convAtSiso ir n xf m * s ∧
+    (ir.scale s).vals = ir.vals.map (fun h r t k => s * h r t k) :=
+  ⟨convAtSiso_scale s ir n xf m, rfl⟩
+
+/-! ## frequency domain (`corrupt_data_in_freq_domain`) -/
+
+/-- Python `range` semantics: `len(range(a, b, s))` counts exactly the `k ≥ 0` whose element
+    `a + k·s` lies before `b` in the direction of the step -/
+theorem range_len_spec (a b s : Int) (k : Nat) :
+    (k : Int) < pyRangeLen a b s ↔ (0 < s ∧ a + k * s < b) ∨ (s < 0 ∧ b < a + k * s) :=
+  pyRangeLen_spec a b s k
+
+/-- CLAUSE "slice index arithmetic": for every slice (any start / stop / step incl. `None`,
+    negative values, steps that do not divide the span) on an axis of any length, numpy
+    selects the elements of `range(*slice.indices(N))`, all inside the axis; a zero step is
+    the only error -/
+theorem sliceIndices_spec (sl : PySlice) (N : Nat) :
+    (sl.step = some 0 → sliceIndices sl N = .error .ValueError) ∧
+    (sl.step ≠ some 0 → ∃ a b c, sliceIndices sl N = .ok (a, b, c) ∧
+        selPos (.slice sl) N = .ok ((pyRange a b c).map Int.toNat) ∧
+        (pyRange a b c).length = (pyRangeLen a b c).toNat ∧
+        ∀ e ∈ pyRange a b c, 0 ≤ e ∧ e < N) := by
+  constructor
+  · intro h
+    simp [sliceIndices, sliceStep, h]
+  · intro h
+    obtain ⟨a, b, c, habc⟩ := sliceIndices_ok_of_step sl N h
+    exact ⟨a, b, c, habc, selPos_slice habc, pyRange_length a b c, fun e he => slice_index_in_range habc he⟩
+
+/-- CLAUSE "for every way of selecting subcarriers (all, index array or slice)": the
+    `block_size` computed by the current source (regenerated expressions) is the number of
+    selected carriers.  (This is the statement the unrepaired source violated for slices whose
+    step does not divide the span.) -/
+theorem blockSize_is_selected_count (sel : Sel) (fft : Nat) (B : Int) (ps : List Nat)
+    (hB : blockSize sel fft = .ok B) (hps : selPos sel fft = .ok ps) : (ps.length : Int) = B :=
+  blockSize_eq_selected sel fft B ps hB hps
+
+/-- the design-round witnesses, now accepted: `slice(0, 10, 3)` and `slice(1, 16, 4)` on 16
+    carriers select 4 carriers and the block size is 4 -/
+theorem blockSize_witnesses :
+    blockSize (.slice ⟨some 0, some 10, some 3⟩) 16 = .ok 4 ∧
+    selPos (.slice ⟨some 0, some 10, some 3⟩) 16 = .ok [0, 3, 6, 9] ∧
+    blockSize (.slice ⟨some 1, some 16, some 4⟩) 16 = .ok 4 ∧
+    selPos (.slice ⟨some 1, some 16, some 4⟩) 16 = .ok [1, 5, 9, 13] := by
+  decide
+
+/-- NEGATIVE WITNESS for the formula the source used before the repair
+    (`(stop − start) // step`, finding `C03:corrupt_data_in_freq_domain:slice-step-not-dividing-span`):
+    it gives 3 where `slice(0, 10, 3)` selects 4 carriers, and 0 where `slice(0, 1, 2)` selects 1 -/
+theorem old_blockSize_formula_wrong :
+    pyFloorDiv (10 - 0) 3 = 3 ∧ (pyRange 0 10 3).length = 4 ∧
+    pyFloorDiv (1 - 0) 2 = 0 ∧ (pyRange 0 1 2).length = 1 := by
+  decide
+
+/-- non-vacuity: the hypotheses of the frequency-domain theorems are met by the design-round
+    witness (8 symbols = 2 blocks over `slice(0, 10, 3)` of 16 carriers) -/
+example : freqPlan (.slice ⟨some 0, some 10, some 3⟩) 16 8 = .ok ([0, 3, 6, 9], 4, 2) := by decide
+
+/-- non-vacuity: the memory hypothesis `c.mem = .ok mem` holds for every non-empty profile, e.g. -/
+example : (Tdl.init [(0, 1), (2, 3), (5, 1)] (some (2, 3)) true 0 : Tdl Int).mem = .ok 5 := rfl
+
+/-- which carriers the three kinds select: everything; the listed indexes (negative ones
+    counted from the end, anything outside `[-N, N)` is an IndexError); the slice's range -/
+theorem selPos_all_idx (N : Nat) (l : List Int) :
+    selPos .all N = .ok (List.range N) ∧
+    ((∀ i ∈ l, -(N : Int) ≤ i ∧ i < N) →
+      selPos (.idx l) N = .ok (l.map (fun i => (if i < 0 then i + (N : Int) else i).toNat))) := by
+  refine ⟨rfl, ?_⟩
+  intro h
+  unfold selPos
+  apply mapM_ok_of_forall
+  intro i hi
+  have := h i hi
+  by_cases hneg : i < 0
+  · simp only [hneg, if_true]
+    rw [if_pos (by omega)]
+  · simp only [hneg, if_false]
+    rw [if_pos (by omega)]
+
+/-- a transmission of `nb ≥ 1` full blocks over any non-empty valid selection is accepted
+    (non-vacuity of the two theorems below, and acceptance of every slice geometry) -/
+theorem freq_accepts (sel : Sel) (fft nb : Nat) (ps : List Nat) (hfft : 0 < fft) (hnb : 0 < nb)
+    (hps : selPos sel fft = .ok ps) (hne : ps ≠ []) :
+    freqPlan sel fft (nb * ps.length) = .ok (ps, ps.length, nb) :=
+  freqPlan_complete sel fft nb ps hfft hnb hps hne
+
+/-- … and whenever a transmission is accepted, the signal length is `nb` blocks of exactly
+    as many symbols as carriers are selected -/
+theorem freq_accepted_geometry {sel : Sel} {fft n : Nat} {ps : List Nat} {B nb : Nat}
+    (h : freqPlan sel fft n = .ok (ps, B, nb)) :
+    0 < fft ∧ 0 < B ∧ 0 < nb ∧ n = nb * B ∧ ps.length = B ∧ selPos sel fft = .ok ps :=
+  let ⟨h1, h2, h3, h4, h5, h6, _⟩ := freqPlan_ok h
+  ⟨h1, h2, h3, h4, h5, h6⟩
+
+/-- CLAUSE "frequency-domain transmission = per-block multiplication by the DFT of the same
+    reported response", SISO, any selection: `y[b·B + q] = FFT(dense taps of sample b)[ps[q]]·x[b·B + q]`,
+    where the response is the one reported afterwards (one sample per block). -/
+theorem freq_siso_spec (proc : Proc α) (fftK : Fft α) (c : Tdl α) (hant : c.ant = none)
+    (sel : Sel) (fft n : Nat) (ps : List Nat) (B nb : Nat) (hplan : freqPlan sel fft n = .ok (ps, B, nb))
+    (xf : Nat → α) :
+    ∃ c' ir, c.corruptFreq proc fftK [tab n xf] fft sel = .ok (c', [freqSpecSiso fftK ir fft ps B nb xf]) ∧
+      c'.lastIR = .ok ir ∧ ir.n = nb ∧ ir.delays = c.delays := by
+  obtain ⟨last, h1, h2⟩ := tdl_corruptFreq_siso proc fftK c hant sel fft n ps B nb hplan xf
+  exact ⟨_, last, h1, rfl, h2.1, h2.2.1⟩
+
+/-- same clause, MIMO in either direction:
+    `y[j][b·B + q] = Σ_a FFT(dense taps (j,a) of sample b)[ps[q]]·x[a][b·B + q]` -/
+theorem freq_mimo_spec (proc : Proc α) (fftK : Fft α) (c : Tdl α) (nr nt : Nat)
+    (hant : c.ant = some (nr, nt)) (hIn : 0 < (c.dims nr nt).2)
+    (sel : Sel) (fft n : Nat) (ps : List Nat) (B nb : Nat) (hplan : freqPlan sel fft n = .ok (ps, B, nb))
+    (xf : Nat → Nat → α) :
+    ∃ c' ir, c.corruptFreq proc fftK (tab (c.dims nr nt).2 (fun a => tab n (xf a))) fft sel
+        = .ok (c', freqSpec fftK ir c.switched fft ps B nb (c.dims nr nt).1 (c.dims nr nt).2 xf) ∧
+      c'.lastIR = .ok ir ∧ ir.n = nb ∧ ir.delays = c.delays := by
+  obtain ⟨last, h1, h2⟩ := tdl_corruptFreq_mimo proc fftK c nr nt hant hIn sel fft n ps B nb hplan xf
+  exact ⟨_, last, h1, rfl, h2.1, h2.2.1⟩
+
+/-- the frequency-domain output has exactly as many entries as the input (`nb·B`) -/
+theorem freq_length (fftK : Fft α) (ir : IR α) (fft : Nat) (ps : List Nat) (nb : Nat) (xf : Nat → α) :
+    (freqSpecSiso fftK ir fft ps ps.length nb xf).length = nb * ps.length := by
+  unfold freqSpecSiso
+  induction nb with
+  | zero => simp
+  | succ k ih =>
+    rw [List.range_succ, List.flatMap_append, List.length_append, ih]
+    simp [Nat.succ_mul]
+
+/-- HISTORY / "fading skip" clause: block `b` of a frequency-domain transmission uses the
+    fading sample at absolute generator position `pos + b·stride` (`stride = fft_size` for a
+    Jakes generator: one sample generated and `fft_size − 1` skipped, both regenerated from
+    the source; `1` for Rayleigh), the reported response has one sample per block in block
+    order, and the transmission consumes `nb·stride` positions. -/
+theorem freq_uses_sample (proc : Proc α) (fftK : Fft α) (c c' : Tdl α) (x y : List (List α)) (fft : Nat) (sel : Sel)
+    (h : c.corruptFreq proc fftK x fft sel = .ok (c', y)) :
+    ∃ ps B nb ir, freqPlan sel fft (numSymbols x) = .ok (ps, B, nb) ∧ c'.last = some ir ∧
+      c'.pos = c.pos + nb * (if c.jakes then fft else 1) ∧ ir.n = nb ∧
+      ∀ r t b, b < nb → ir.vals.map (fun h => h r t b)
+        = c.taps.zipIdx.map (fun ta => proc c.link (c.pos + b * (if c.jakes then fft else 1)) ta.2 r t * ta.1.2) := by
+  obtain ⟨ps, B, nb, last, hp, hst⟩ := tdl_corruptFreq_state proc fftK c c' x y fft sel h
+  obtain ⟨hfft, -, hnb, -, -, -, -⟩ := freqPlan_ok hp
+  have hlast := tdl_corruptFreq_last proc fftK c c' x y fft sel ps B nb h hp
+  obtain ⟨l, hl1, hl2⟩ := hlast
+  obtain ⟨l', hl1', hbc⟩ := concat_blockIRs proc c fft nb hfft hnb
+  rw [hl1] at hl1'
+  cases hl1'
+  refine ⟨ps, B, nb, l, hp, hl2, ?_, hbc.1, ?_⟩
+  · rw [hst]; rfl
+  · intro r t b hb
+    rw [hbc.2.2.2 r t b hb]
+    simp only [blockIR, genIR, stride, List.map_map]
+    apply List.map_congr_left
+    intro ta _
+    simp
+
+/-- the dense taps (`TdlImpulseResponse.tap_values`) whose FFT is taken: zero padding to
+    `last delay + 1`, tap `i` at position `d_i` (delays sorted, as discretisation guarantees) -/
+theorem dense_spec (delays : List Nat) (v : List α) (hlen : v.length = delays.length)
+    (hsorted : delays.Pairwise (· < ·)) (l : Nat) :
+    (dense delays v)[l]? =
+      match delays.getLast? with
+      | none => none
+      | some last => if l ≤ last then
+          some (match (delays.zip v).find? (fun dv => dv.1 == l) with | some dv => dv.2 | none => 0)
+        else none :=
+  dense_getElem? delays v hlen hsorted l
+
+/-- CLAUSE "with or without path loss", frequency domain, SISO: conditional on the FFT kernel
+    being homogeneous (`FFT(s·v) = s·FFT(v)`, a contract of `np.fft.fft` the harness checks
+    numerically) when a path loss is set. -/
+theorem pathloss_consistent_freq_siso (proc : Proc α) (fftK : Fft α) (c : Su α) (hant : c.tdl.ant = none)
+    (hK : c.pl = none ∨ Fft.Homogeneous fftK)
+    (sel : Sel) (fft n : Nat) (ps : List Nat) (B nb : Nat) (hplan : freqPlan sel fft n = .ok (ps, B, nb))
+    (xf : Nat → α) :
+    ∃ c' ir, c.corruptFreq proc fftK [tab n xf] fft sel = .ok (c', [freqSpecSiso fftK ir fft ps B nb xf]) ∧
+      c'.lastIR = .ok ir ∧ ir.n = nb := by
+  obtain ⟨last, h1, h2⟩ := su_corruptFreq_siso proc fftK c hant hK sel fft n ps B nb hplan xf
+  refine ⟨_, _, h1, su_lastIR c _ _ rfl, ?_⟩
+  rw [Su.report_n]; exact h2.1
+
+/-- same, MIMO in either direction -/
+theorem pathloss_consistent_freq_mimo (proc : Proc α) (fftK : Fft α) (c : Su α) (nr nt : Nat)
+    (hant : c.tdl.ant = some (nr, nt)) (hIn : 0 < (c.tdl.dims nr nt).2)
+    (hK : c.pl = none ∨ Fft.Homogeneous fftK)
+    (sel : Sel) (fft n : Nat) (ps : List Nat) (B nb : Nat) (hplan : freqPlan sel fft n = .ok (ps, B, nb))
+    (xf : Nat → Nat → α) :
+    ∃ c' ir, c.corruptFreq proc fftK (tab (c.tdl.dims nr nt).2 (fun a => tab n (xf a))) fft sel
+        = .ok (c', freqSpec fftK ir c.tdl.switched fft ps B nb (c.tdl.dims nr nt).1 (c.tdl.dims nr nt).2 xf) ∧
+      c'.lastIR = .ok ir ∧ ir.n = nb := by
+  obtain ⟨last, h1, h2⟩ := su_corruptFreq_mimo proc fftK c nr nt hant hIn hK sel fft n ps B nb hplan xf
+  refine ⟨_, _, h1, su_lastIR c _ _ rfl, ?_⟩
+  rw [Su.report_n]; exact h2.1
+
+/-- the contract is satisfiable: every kernel that is a linear combination of its input
+    (the true DFT `Σ_d v[d]·ω^{kd}` and the scripted kernel of the correspondence alike) is homogeneous -/
+theorem linear_kernel_homogeneous (w : Nat → Nat → Nat → α) :
+    Fft.Homogeneous (fun v N k => ((v.take N).zipIdx.map (fun vd => vd.1 * w N k vd.2)).sum) := by
+  intro s v N k
+  simp only
+  rw [← List.sum_map_mul_left, ← List.map_take, List.zipIdx_map, List.map_map]
+  congr 1
+  apply List.map_congr_left
+  intro vd _
+  simp only [Function.comp, Prod.map, id]
+  ring
+
+/-! ## multiuser superposition (`MuChannel`, `MuMimoChannel`) -/
+
+/-- CLAUSE "multiuser": if every link `(rx, tx)`, fed with the signal of its source, returns
+    the table `F link` (which, by the single-link theorems, is the convolution resp. the
+    per-block multiplication with the response that link reports afterwards), then destination
+    `j` receives `Σ_sources F (link j source)` entrywise; sources are the transmitters and
+    destinations the receivers, exchanged in the switched direction; every link's state is
+    updated exactly once. -/
+theorem mu_superposition (nRx nTx : Nat) (hR : 0 < nRx) (hT : 0 < nTx) (Lk L' : Nat → Su α) (sw : Bool)
+    (hsw : (Lk 0).tdl.switched = sw)
+    (x : List (List (List α))) (send : Su α → List (List α) → Except PyErr (Su α × List (List α)))
+    (R len : Nat) (F : Nat → Nat → Nat → α)
+    (hsend : ∀ idx, idx < nRx * nTx → ∃ s, x[if sw then idx / nTx else idx % nTx]? = some s ∧
+        send (Lk idx) s = .ok (L' idx, tab R (fun r => tab len (F idx r)))) :
+    Mu.transmit { nRx := nRx, nTx := nTx, links := tab (nRx * nTx) Lk } x send
+      = .ok ({ nRx := nRx, nTx := nTx, links := tab (nRx * nTx) L' },
+             tab (if sw then nTx else nRx) (fun j => tab R (fun r => tab len (fun m =>
+               ((List.range (if sw then nRx else nTx)).map (fun a => F (muLink sw nTx j a) r m)).sum)))) :=
+  mu_transmit_tables nRx nTx hR hT Lk L' sw hsw x send R len F hsend
+
+/-- the multiuser time-domain transmission of SISO links, fully instantiated: receiver `j`
+    gets `Σ_t conv(x_t, response reported by link (j,t))`, including each link's path loss. -/
+theorem mu_corrupt_siso (proc : Proc α) (nRx nTx : Nat) (hR : 0 < nRx) (hT : 0 < nTx) (Lk : Nat → Su α)
+    (hant : ∀ l, (Lk l).tdl.ant = none) (hsw : ∀ l, (Lk l).tdl.switched = false) (mem : Nat)
+    (hmem : ∀ l, (Lk l).tdl.mem = .ok mem) (n : Nat) (xf : Nat → Nat → α) :
+    ∃ (L' : Nat → Su α) (ir : Nat → IR α),
+      Mu.corrupt proc { nRx := nRx, nTx := nTx, links := tab (nRx * nTx) Lk } (tab nTx (fun t => [tab n (xf t)]))
+        = .ok ({ nRx := nRx, nTx := nTx, links := tab (nRx * nTx) L' },
+               tab nRx (fun j => [tab (n + mem) (fun m =>
+                 ((List.range nTx).map (fun t => convAtSiso (ir (j * nTx + t)) n (xf t) m)).sum)])) ∧
+      ∀ l, (L' l).lastIR = .ok (ir l) ∧ (ir l).n = n := by
+  refine ⟨fun l => { Lk l with tdl := (Lk l).tdl.afterTx proc n },
+          fun l => (Lk l).report (genIR proc (Lk l).tdl (Lk l).tdl.pos n), ?_, ?_⟩
+  · have := mu_transmit_tables nRx nTx hR hT Lk (fun l => { Lk l with tdl := (Lk l).tdl.afterTx proc n }) false
+      (hsw 0) (tab nTx (fun t => [tab n (xf t)])) (fun su s => su.corrupt proc s) 1 (n + mem)
+      (fun idx _ m => convAtSiso ((Lk idx).report (genIR proc (Lk idx).tdl (Lk idx).tdl.pos n)) n (xf (idx % nTx)) m)
+      (by
+        intro idx _
+        refine ⟨[tab n (xf (idx % nTx))], ?_, ?_⟩
+        · simp only [Bool.false_eq_true, if_false]
+          rw [getElem?_tab, if_pos (Nat.mod_lt _ hT)]
+        · rw [su_corrupt_siso proc (Lk idx) (hant idx) mem (hmem idx) n (xf (idx % nTx))]
+          simp [convSpecSiso, tab])
+    simp only [Bool.false_eq_true, if_false, muLink] at this
+    unfold Mu.corrupt
+    rw [this]
+    congr 2
+    unfold tab
+    apply List.map_congr_left
+    intro j _
+    simp only [List.range_one, List.map_cons, List.map_nil, List.cons.injEq, and_true]
+    apply List.map_congr_left
+    intro m _
+    congr 1
+    apply List.map_congr_left
+    intro a ha
+    rw [List.mem_range] at ha
+    rw [Nat.mul_comm j nTx, Nat.mul_add_mod, Nat.mod_eq_of_lt ha]
+  · intro l
+    exact ⟨su_lastIR (Lk l) _ _ rfl, by rw [Su.report_n]; rfl⟩
+
+/-- the multiuser time-domain transmission of MIMO links in either direction (`sw`), fully
+    instantiated: destination `j` gets, on each of its antennas,
+    `Σ_sources conv(x_source, response reported by the link between them)`. -/
+theorem mu_corrupt_mimo (proc : Proc α) (nRx nTx : Nat) (hR : 0 < nRx) (hT : 0 < nTx) (Lk : Nat → Su α)
+    (nr nt : Nat) (sw : Bool) (hant : ∀ l, (Lk l).tdl.ant = some (nr, nt)) (hsw : ∀ l, (Lk l).tdl.switched = sw)
+    (mem : Nat) (hmem : ∀ l, (Lk l).tdl.mem = .ok mem) (hIn : 0 < (if sw then nr else nt))
+    (n : Nat) (xf : Nat → Nat → Nat → α) :
+    ∃ (L' : Nat → Su α) (ir : Nat → IR α),
+      Mu.corrupt proc { nRx := nRx, nTx := nTx, links := tab (nRx * nTx) Lk }
+          (tab (if sw then nRx else nTx) (fun a => tab (if sw then nr else nt) (fun i => tab n (xf a i))))
+        = .ok ({ nRx := nRx, nTx := nTx, links := tab (nRx * nTx) L' },
+               tab (if sw then nTx else nRx) (fun j => tab (if sw then nt else nr) (fun r => tab (n + mem) (fun m =>
+                 ((List.range (if sw then nRx else nTx)).map (fun a =>
+                   convAt (ir (muLink sw nTx j a)) sw (if sw then nr else nt) n (xf a) r m)).sum)))) ∧
+      ∀ l, (L' l).lastIR = .ok (ir l) ∧ (ir l).n = n := by
+  have hdims : ∀ l, (Lk l).tdl.dims nr nt = (if sw then nt else nr, if sw then nr else nt) := by
+    intro l; unfold Tdl.dims; rw [hsw l]; cases sw <;> rfl
+  refine ⟨fun l => { Lk l with tdl := (Lk l).tdl.afterTx proc n },
+          fun l => (Lk l).report (genIR proc (Lk l).tdl (Lk l).tdl.pos n), ?_, ?_⟩
+  · have := mu_transmit_tables nRx nTx hR hT Lk (fun l => { Lk l with tdl := (Lk l).tdl.afterTx proc n }) sw
+      (hsw 0) (tab (if sw then nRx else nTx) (fun a => tab (if sw then nr else nt) (fun i => tab n (xf a i))))
+      (fun su s => su.corrupt proc s) (if sw then nt else nr) (n + mem)
+      (fun idx r m => convAt ((Lk idx).report (genIR proc (Lk idx).tdl (Lk idx).tdl.pos n)) sw
+        (if sw then nr else nt) n (xf (if sw then idx / nTx else idx % nTx)) r m)
+      (by
+        intro idx hidx
+        refine ⟨tab (if sw then nr else nt) (fun i => tab n (xf (if sw then idx / nTx else idx % nTx) i)), ?_, ?_⟩
+        · rw [getElem?_tab]
+          have hb : (if sw then idx / nTx else idx % nTx) < (if sw then nRx else nTx) := by
+            cases sw
+            · simp only [Bool.false_eq_true, if_false]; exact Nat.mod_lt _ hT
+            · simp only [if_true]; exact Nat.div_lt_of_lt_mul (by rw [Nat.mul_comm]; exact hidx)
+          rw [if_pos hb]
+        · have h := su_corrupt_mimo proc (Lk idx) nr nt (hant idx) mem (hmem idx) n
+            (xf (if sw then idx / nTx else idx % nTx)) (by rw [hdims idx]; exact hIn)
+          rw [hdims idx] at h
+          simp only at h
+          rw [h, hsw idx]
+          rfl)
+    unfold Mu.corrupt
+    rw [this]
+    congr 2
+    unfold tab
+    apply List.map_congr_left
+    intro j hj
+    rw [List.mem_range] at hj
+    apply List.map_congr_left
+    intro r _
+    apply List.map_congr_left
+    intro m _
+    congr 1
+    apply List.map_congr_left
+    intro a ha
+    rw [List.mem_range] at ha
+    have hsrc : (if sw then muLink sw nTx j a / nTx else muLink sw nTx j a % nTx) = a := by
+      cases sw
+      · simp only [Bool.false_eq_true, if_false, muLink] at ha ⊢
+        rw [Nat.mul_comm j nTx, Nat.mul_add_mod, Nat.mod_eq_of_lt ha]
+      · simp only [if_true, muLink] at hj ⊢
+        rw [Nat.mul_comm a nTx, Nat.mul_add_div hT, Nat.div_eq_of_lt hj, Nat.add_zero]
+    rw [hsrc]
+  · intro l
+    exact ⟨su_lastIR (Lk l) _ _ rfl, by rw [Su.report_n]; rfl⟩
+
+/-- the multiuser frequency-domain transmission of SISO links, either direction, any selection,
+    with per-link path losses (kernel homogeneity needed only when some path loss is set):
+    destination `j` gets at flat position `m = b·B + q`
+    `Σ_sources FFT(dense taps of sample b reported by the link)[ps[q]] · x_source[m]`. -/
+theorem mu_freq_siso (proc : Proc α) (fftK : Fft α) (nRx nTx : Nat) (hR : 0 < nRx) (hT : 0 < nTx) (Lk : Nat → Su α)
+    (sw : Bool) (hant : ∀ l, (Lk l).tdl.ant = none) (hsw : ∀ l, (Lk l).tdl.switched = sw)
+    (hK : (∀ l, (Lk l).pl = none) ∨ Fft.Homogeneous fftK)
+    (sel : Sel) (fft n : Nat) (ps : List Nat) (B nb : Nat) (hplan : freqPlan sel fft n = .ok (ps, B, nb))
+    (xf : Nat → Nat → α) :
+    ∃ (L' : Nat → Su α) (ir : Nat → IR α),
+      Mu.corruptFreq proc fftK { nRx := nRx, nTx := nTx, links := tab (nRx * nTx) Lk }
+          (tab (if sw then nRx else nTx) (fun a => [tab n (xf a)])) fft sel
+        = .ok ({ nRx := nRx, nTx := nTx, links := tab (nRx * nTx) L' },
+               tab (if sw then nTx else nRx) (fun j => [tab n (fun m =>
+                 ((List.range (if sw then nRx else nTx)).map (fun a =>
+                   freqAtSisoFlat fftK (ir (muLink sw nTx j a)) fft ps (xf a) m)).sum)])) ∧
+      ∀ l, (L' l).lastIR = .ok (ir l) ∧ (ir l).n = nb := by
+  obtain ⟨hfft, hB, hnb, hn, hlen, -, -⟩ := freqPlan_ok hplan
+  have hpos : 0 < ps.length := by omega
+  -- per-link results
+  have hlink : ∀ l src, ∃ last, (Lk l).corruptFreq proc fftK [tab n (xf src)] fft sel
+        = .ok ({ Lk l with tdl := (Lk l).tdl.afterFx fft nb last },
+               [freqSpecSiso fftK ((Lk l).report last) fft ps B nb (xf src)])
+      ∧ IsBlockConcat proc (Lk l).tdl fft nb last := by
+    intro l src
+    exact su_corruptFreq_siso proc fftK (Lk l) (hant l)
+      (hK.elim (fun h => Or.inl (h l)) Or.inr) sel fft n ps B nb hplan (xf src)
+  let srcOf : Nat → Nat := fun idx => if sw then idx / nTx else idx % nTx
+  let lastOf : Nat → IR α := fun l => Classical.choose (hlink l (srcOf l))
+  have hlast : ∀ l, (Lk l).corruptFreq proc fftK [tab n (xf (srcOf l))] fft sel
+        = .ok ({ Lk l with tdl := (Lk l).tdl.afterFx fft nb (lastOf l) },
+               [freqSpecSiso fftK ((Lk l).report (lastOf l)) fft ps B nb (xf (srcOf l))])
+      ∧ IsBlockConcat proc (Lk l).tdl fft nb (lastOf l) := fun l => Classical.choose_spec (hlink l (srcOf l))
+  refine ⟨fun l => { Lk l with tdl := (Lk l).tdl.afterFx fft nb (lastOf l) },
+          fun l => (Lk l).report (lastOf l), ?_, ?_⟩
+  · have := mu_transmit_tables nRx nTx hR hT Lk (fun l => { Lk l with tdl := (Lk l).tdl.afterFx fft nb (lastOf l) }) sw
+      (hsw 0) (tab (if sw then nRx else nTx) (fun a => [tab n (xf a)]))
+      (fun su s => su.corruptFreq proc fftK s fft sel) 1 n
+      (fun idx _ m => freqAtSisoFlat fftK ((Lk idx).report (lastOf idx)) fft ps (xf (srcOf idx)) m)
+      (by
+        intro idx hidx
+        refine ⟨[tab n (xf (srcOf idx))], ?_, ?_⟩
+        · rw [getElem?_tab]
+          have hb : (if sw then idx / nTx else idx % nTx) < (if sw then nRx else nTx) := by
+            cases sw
+            · simp only [Bool.false_eq_true, if_false]; exact Nat.mod_lt _ hT
+            · simp only [if_true]; exact Nat.div_lt_of_lt_mul (by rw [Nat.mul_comm]; exact hidx)
+          rw [if_pos hb]
+        · rw [(hlast idx).1, ← hlen, freqSpecSiso_eq_tab fftK _ fft ps hpos nb, hn, hlen]
+          simp [tab])
+    unfold Mu.corruptFreq
+    rw [this]
+    congr 2
+    unfold tab
+    apply List.map_congr_left
+    intro j hj
+    rw [List.mem_range] at hj
+    simp only [List.range_one, List.map_cons, List.map_nil, List.cons.injEq, and_true]
+    apply List.map_congr_left
+    intro m _
+    congr 1
+    apply List.map_congr_left
+    intro a ha
+    rw [List.mem_range] at ha
+    have hsrc : srcOf (muLink sw nTx j a) = a := by
+      show (if sw then muLink sw nTx j a / nTx else muLink sw nTx j a % nTx) = a
+      cases sw
+      · simp only [Bool.false_eq_true, if_false, muLink] at ha ⊢
+        rw [Nat.mul_comm j nTx, Nat.mul_add_mod, Nat.mod_eq_of_lt ha]
+      · simp only [if_true, muLink] at hj ⊢
+        rw [Nat.mul_comm a nTx, Nat.mul_add_div hT, Nat.div_eq_of_lt hj, Nat.add_zero]
+    rw [hsrc]
+  · intro l
+    exact ⟨su_lastIR (Lk l) _ _ rfl, by rw [Su.report_n]; exact (hlast l).2.1⟩
+
+/-! ## discretisation of a tap profile -/
+
+/-- `np.round` on an exact quotient: nearest integer, ties to even -/
+theorem round_half_even_spec (x : ℚ) :
+    |x - (roundHalfEven x : ℚ)| ≤ 1 / 2 ∧ (|x - (roundHalfEven x : ℚ)| = 1 / 2 → roundHalfEven x % 2 = 0) :=
+  roundHalfEven_spec x
+
+/-- CLAUSE "unique sorted integer delays": strictly increasing integers, exactly the rounded
+    delays of the input taps; non-negative when the input delays are. -/
+theorem discretize_sorted_unique (delays powers : List ℚ) (Ts : ℚ) :
+    (discretize delays powers Ts).1.Pairwise (· < ·) ∧
+    (∀ d : Int, d ∈ (discretize delays powers Ts).1 ↔ ∃ t ∈ delays, roundHalfEven (t / Ts) = d) ∧
+    ((∀ t ∈ delays, 0 ≤ t) → 0 < Ts → ∀ d ∈ (discretize delays powers Ts).1, 0 ≤ d) := by
+  have hmem : ∀ d : Int, d ∈ (discretize delays powers Ts).1 ↔ ∃ t ∈ delays, roundHalfEven (t / Ts) = d := by
+    intro d
+    simp only [discretize, mem_uniqueSorted, delayIdx, List.mem_map]
+  refine ⟨uniqueSorted_sorted _, hmem, ?_⟩
+  intro hpos hTs d hd
+  obtain ⟨t, ht, rfl⟩ := (hmem d).mp hd
+  have hq : (0 : ℚ) ≤ t / Ts := div_nonneg (hpos t ht) (le_of_lt hTs)
+  have h := (roundHalfEven_spec (t / Ts)).1
+  rw [abs_le] at h
+  by_contra hneg
+  rw [not_le] at hneg
+  have : (roundHalfEven (t / Ts) : ℚ) ≤ -1 := by exact_mod_cast (show roundHalfEven (t / Ts) ≤ -1 by omega)
+  linarith [h.2]
+
+/-- CLAUSE "powers merge colliding taps": the power at output delay `d` is the sum of the
+    powers of all input taps that round to `d`, divided by the total input power. -/
+theorem discretize_merges (delays powers : List ℚ) (Ts : ℚ) (hlen : delays.length = powers.length) :
+    (discretize delays powers Ts).2
+      = (discretize delays powers Ts).1.map (fun d => collidingPower (delayIdx delays Ts) powers d / powers.sum) := by
+  have hlen' : (delayIdx delays Ts).length = powers.length := by simp [delayIdx, hlen]
+  simp only [discretize]
+  rw [accumulate_sum _ _ hlen']
+  apply List.ext_getElem?
+  intro j
+  simp only [List.getElem?_map]
+  by_cases hj : j < (uniqueSorted (delayIdx delays Ts)).length
+  · rw [accumulate_getElem? _ _ j hj, List.getElem?_eq_getElem hj]
+    rfl
+  · have h1 : (accumulate (uniqueSorted (delayIdx delays Ts)).length
+        (inverseIdx (uniqueSorted (delayIdx delays Ts)) (delayIdx delays Ts)) powers)[j]? = none :=
+      List.getElem?_eq_none (by rw [accumulate_length]; omega)
+    rw [h1, List.getElem?_eq_none (by omega)]
+    rfl
+
+/-- CLAUSE "and sum to one" (positive linear powers, as `10^(dB/10)` always is). -/
+theorem discretize_power_sum_one (delays powers : List ℚ) (Ts : ℚ) (hlen : delays.length = powers.length)
+    (hne : powers ≠ []) (hpos : ∀ p ∈ powers, 0 < p) :
+    (discretize delays powers Ts).2.sum = 1 ∧ (discretize delays powers Ts).2.length = (discretize delays powers Ts).1.length := by
+  have hlen' : (delayIdx delays Ts).length = powers.length := by simp [delayIdx, hlen]
+  have htot := accumulate_sum (delayIdx delays Ts) powers hlen'
+  have hp : 0 < powers.sum := sum_pos_of_pos powers hne hpos
+  constructor
+  · simp only [discretize]
+    rw [htot]
+    have : (fun x : ℚ => x / powers.sum) = (fun x => x * powers.sum⁻¹) := by funext x; rw [div_eq_mul_inv]
+    rw [this, List.sum_map_mul_right, List.map_id', htot]
+    field_simp
+  · simp [discretize, accumulate_length]
+
+/-- non-vacuity of the discretisation clauses: two taps colliding at delay 2 (1.5 and 2.5 both
+    round to 2: ties to even) merge, the result is sorted, unique and sums to one -/
+example : discretize [0, 3/2, 5/2, 4] [1, 1/2, 1/4, 1/4] 1 = ([0, 2, 4], [1/2, 3/8, 1/8]) := by
+  decide +kernel
+
+/-! ## histories -/
+
+/-- HISTORY clause: a successful run of **any** list of operations on one object is a chain
+    of successful steps, each taken from the state its prefix leads to — so each transmission
+    in it is an instance of the single-transmission theorems above (which hold for every
+    state), with the response read right after it. -/
+theorem history_steps (proc : Proc α) (fftK : Fft α) (ops : List (SuOp α)) (c0 cf : Su α) (outs : List (SuOut α))
+    (h : Su.run proc fftK c0 ops = .ok (cf, outs)) :
+    outs.length = ops.length ∧
+    ∀ k op, ops[k]? = some op → ∃ ck ck' o,
+      Su.run proc fftK c0 (ops.take k) = .ok (ck, outs.take k) ∧
+      ck.step proc fftK op = .ok (ck', o) ∧ outs[k]? = some o :=
+  su_run_steps proc fftK ops c0 cf outs h
+
+/-- HISTORY clause: over any number of consecutive operations the profile, antenna set-up and
+    generator are unchanged and the fading position is the start position plus what every
+    earlier transmission consumed (`n` per time-domain transmission, `nb·stride` per
+    frequency-domain one): the samples of the `j`-th transmission are the ones at the absolute
+    positions this counter gives (`corrupt_uses_samples`, `freq_uses_sample`). -/
+theorem history_position (proc : Proc α) (fftK : Fft α) (ops : List (SuOp α)) (c0 cf : Su α) (outs : List (SuOut α))
+    (h : Su.run proc fftK c0 ops = .ok (cf, outs)) :
+    cf.tdl.taps = c0.tdl.taps ∧ cf.tdl.ant = c0.tdl.ant ∧ cf.tdl.jakes = c0.tdl.jakes ∧ cf.tdl.link = c0.tdl.link ∧
+    cf.tdl.pos = c0.tdl.pos + (ops.map (SuOp.advance c0.tdl.jakes)).sum :=
+  su_run_state proc fftK ops c0 cf outs h
+
+/-- a two-transmission history, end to end on concrete Gaussian-free data (α = ℤ): both
+    transmissions succeed and the second one starts where the first one stopped -/
+example :
+    (Su.run (fun _ pos i _ _ => (pos : Int) + i) (fun v _ k => v.sum * k)
+      { tdl := Tdl.init [(0, 1), (2, 3)] none true 0, pl := some 2 }
+      [.tx [[1, 2, 3]], .fx [[1, 1, 1, 1]] 4 (.slice ⟨some 0, none, some 3⟩), .getIR]).map (fun r => r.1.tdl.pos)
+      = .ok (1 + 3 + 2 * 4) := by
+  decide +kernel
 
 end PyPhysim.C03
